@@ -248,6 +248,7 @@ impl EncodingVersion for EncodingVersion1 {
         dynamic_data: &mut DynamicData,
     ) -> XTypesResult<()> {
         let length = deserializer.deserialize_primitive_type::<u32>()?;
+        deserializer.reader.check_sequence_length(length)?;
         deserializer.deserialize_sequence_elements(member, dynamic_data, length as usize)
     }
 
@@ -490,6 +491,7 @@ impl EncodingVersion for EncodingVersion2 {
     ) -> XTypesResult<()> {
         let _dheader = deserializer.deserialize_primitive_type::<u32>()?;
         let length = deserializer.deserialize_primitive_type::<u32>()?;
+        deserializer.reader.check_sequence_length(length)?;
         deserializer.deserialize_sequence_elements(member, dynamic_data, length as usize)
     }
 
@@ -1137,6 +1139,7 @@ impl<'a, E: EndiannessRead, V: EncodingVersion> XTypesDeserializer<'a, E, V> {
         dynamic_data: &mut DynamicData,
     ) -> XTypesResult<()> {
         let length = self.deserialize_primitive_type::<u32>()?;
+        self.reader.check_sequence_length(length)?;
         self.deserialize_sequence_elements(member, dynamic_data, length as usize)
     }
 
@@ -1370,6 +1373,17 @@ impl<'a> Reader<'a> {
             Err(XTypesError::NotEnoughData)
         } else {
             self.pos += v;
+            Ok(())
+        }
+    }
+
+    /// A sequence cannot have more elements than there are bytes left: every element that is
+    /// not itself empty takes at least one byte. Rejecting the length here keeps the element loop
+    /// (and what it allocates) proportional to the input.
+    fn check_sequence_length(&self, length: u32) -> XTypesResult<()> {
+        if length as usize > self.buffer.len().saturating_sub(self.pos) {
+            Err(XTypesError::NotEnoughData)
+        } else {
             Ok(())
         }
     }
